@@ -55,7 +55,10 @@ CHECKS = {
                         "InPlaceTrace.tla requires the hook log to be a behaviour of the specification and the directory "
                         "found afterwards to be the specification's post-crash state. Independently of the model each "
                         "named file's bytes are compared with the original and with what the same command without -I "
-                        "prints for that file alone."),
+                        "prints for that file alone. A second run (Restart) of a different, shorter command on the directories "
+                        "the first one left - after a kill at every crash point, an abort, a failure or a success - is part of "
+                        "the specification and of the replay (stale temp files, unrestored modes); the design that reuses a "
+                        "stale temp file is a constant (ReuseStaleTemp) TLC must refute on every run."),
         note="SIGKILL stands for a crash (no fsync modelling). Crash points are the hook sites of processFileInPlace, every "
              "written record and the final flush. Quick tier: all scenarios of <= 2 files and a seeded sample of 3-file "
              "scenarios; thorough: all. Trusted: TLC, hook placement (corruption self-test on every run), chattr +i as the "
@@ -68,12 +71,15 @@ CHECKS = {
         level=dict(category="model_checking", design_ref="DESIGN.md §4.3, §5 C20",
                    text="FanOut.tla states the requirement (Required: each target's file is one well-formed document of "
                         "exactly its records in order, appended to prior contents in append mode) and transcribes "
-                        "MultiOutputHandlerManager (LRU, eviction, append re-open with a fresh writer) as Step/ImplFiles. "
+                        "MultiOutputHandlerManager (LRU, eviction, append re-open) as Step/ImplFiles, in both designs the code has had "
+                        "(constant Suspend: the evicted handler keeps its record writer - the tree as repaired - or is closed and "
+                        "re-opened with a fresh writer - the pinned tree, which TLC must still refute on every run). "
                         "TLC checks Refines for capacities 1..3, three document kinds, write/append, pre-existing files. "
                         "Every write history up to the bound is replayed on the rebuilt binary via redirected "
                         "tee/emit/print, split -g and pipes; FanOutObs.tla judges each produced file against Required "
                         "(verdict) and against ImplFiles (conformance); the cache's hit/evict/open hook log is validated "
-                        "against the model with the real capacity."),
+                        "against the model with the real capacity. Volume histories (every write standing for 700 records) "
+                        "exercise per-file batching."),
         note="Histories bounded to <= 4-6 writes over 3 abstract targets; capacity K of the model mapped onto the code's "
              "constant 256 by blocks of 256/K real files written in sequence. Files are tokenised by the harness (header "
              "lines, records, JSON top-level values). Trusted: TLC, the tokeniser, the fixed table of CLI forms."),
@@ -85,13 +91,16 @@ CHECKS = {
         level=dict(category="model_checking", design_ref="DESIGN.md §4.5, §5 C11",
                    text="Every selecting verb (head incl. negative counts, tail incl. +k, decimate -b/-e, filter/-x over boolean "
                         "and absent expressions, having-fields, tac, group-by, group-like, uniq -a [-c|-n], "
-                        "skip-trivial-records, nothing, cat -n/-N/-g; shuffle, bootstrap, sample as predicates) is a "
+                        "skip-trivial-records, nothing, cat -n/-N/-g, grep -i/-v/-a on literal patterns, the regex modes of "
+                        "having-fields on tabulated patterns; shuffle, bootstrap, sample as predicates) is a "
                         "definition over the whole input stream. TLC proves the laws of the statement on the definitions "
                         "(outputs are sub-multisets, head k ++ tail +(k+1) = input, filter/filter -x partition, tac twice, "
                         "group sizes add up) over the whole bounded space, enumerates every (configuration, stream) case, "
-                        "and judges the real binary's output for each."),
+                        "and judges the real binary's output for each. A slow-arrival family (streams of 4-5 records, one record per "
+                        "batch, a pause after every line at the reader's hook) runs the early-exit and grouping verbs on input "
+                        "that has mostly not been read yet."),
         note="Bounded: streams of <= 3 (quick) / 4 (thorough) records over 6 record shapes, counts in {-2..3,5}, <= 2 group-by "
-             "fields. grep and regex modes of having-fields not modelled. Trusted: TLC; the harness only spells options and "
+             "fields. grep for literal patterns only. Trusted: TLC; the harness only spells options and "
              "splits DKVP lines (corruption self-test on every run)."),
 }
 
